@@ -105,6 +105,9 @@ func (rd *refDriver) arg(t reflect.Type, recv reflect.Value) (v reflect.Value, s
 			return reflect.ValueOf(v), v, true
 		}
 		return reflect.Value{}, nil, false
+	case reflect.Float64:
+		v := FDom().AnyVal(r)
+		return reflect.ValueOf(v).Convert(t), fmt.Sprint(v), true
 	case reflect.Slice:
 		if t.Elem().Kind() == reflect.Uint8 {
 			var data []byte
@@ -135,6 +138,10 @@ func (rd *refDriver) arg(t reflect.Type, recv reflect.Value) (v reflect.Value, s
 	case reflect.Func:
 		return rd.makeFunc(t), "func", true
 	case reflect.Ptr:
+		if t == reflect.TypeOf((*PS)(nil)) {
+			v := PDom().AnyVal(r)
+			return reflect.ValueOf(v), fmt.Sprint(v), true
+		}
 		if recv.IsValid() && t == recv.Type() {
 			if r.Chance(1, 4) {
 				return recv, "receiver-itself", true
@@ -372,6 +379,28 @@ func runC17(c *core.Ctx) {
 		expectPanic(c, "BTree", "New", func() { btree.New[int, int](r.Range(-1, 2)) })
 	}
 	d := newDynRandom(c, kind, false)
+	switch c.Index % 11 { // (11 is coprime to the 21 kinds and the 8-cycle of deep cases)
+	case 3:
+		// pointer elements / values, the nil pointer among them
+		cfg := drawCfg(r, true)
+		if isKV(kind) {
+			d = NewDyn(kind, IntDom(8), PDom(), cfg)
+		} else {
+			d = NewDyn(kind, PDom(), IntDom(4), cfg)
+		}
+		c.Begin(kind, "New", d.Elem, d.Config)
+		c.Count("c17:pointer-element-cases", 1)
+	case 7:
+		// float elements / values incl. NaN and the infinities
+		cfg := drawCfg(r, true)
+		if isKV(kind) {
+			d = NewDyn(kind, StrDom(8), FDom(), cfg)
+		} else {
+			d = NewDyn(kind, FDom(), IntDom(4), cfg)
+		}
+		c.Begin(kind, "New", d.Elem, d.Config)
+		c.Count("c17:float-element-cases", 1)
+	}
 	if r.Intn(3) > 0 {
 		d.build(c, r.Range(0, 25))
 	}
